@@ -649,7 +649,7 @@ func familyRead(s *hlib.Suite, r *hlib.Rng, n int, thorough bool) {
 		if r.Chance(1, 8) {
 			nrows = 0
 		}
-		bigHint := thorough && it%60 == 5
+		bigHint := (thorough && it%60 == 5) || it == 7 // one large RowCountHint case in every run
 		if bigHint {
 			nrows = 998 + r.Intn(6)
 			ncols = 1 + r.Intn(2)
